@@ -24,17 +24,28 @@ def run_case(a):
     casef = os.path.join(d, "case.json")
     with open(casef, "w") as fh:
         json.dump(case, fh)
-    cmd = [texel, "-s", os.path.join(d, "src.gpkg"), "-t", os.path.join(d, "out", case["target"]), "-tms", case["tms"],
-           "-z", json.dumps(case["ids"]), "-p", str(case["pagesize"])]
-    if case["overwrite"]:
-        cmd.append("-o")
-    if case["keep"]:
-        cmd.append("-pl")
-    if case["iog"]:
-        cmd.append("-iog")
-    if case["rwo"]:
-        cmd.append("-rwo")
+    # the same configuration reaches the tool in one of three ways (main.go:44-113): short aliases, long flag names, environment variables
+    src, tgt = os.path.join(d, "src.gpkg"), os.path.join(d, "out", case["target"])
     env = dict(os.environ)
+    for k in ("SOURCE_GPKG", "TARGET_GPKG", "OVERWRITE", "TILEMATRIXSET", "TILEMATRICES", "PAGESIZE", "KEEPPOINTSANDLINES", "IGNOREOUTSIDEGRID", "REVERSEWINDINGORDER"):
+        env.pop(k, None)
+    how = ("alias", "long", "env")[seed % 3]
+    bools = (("overwrite", "o", "overwrite", "OVERWRITE"), ("keep", "pl", "keeppointsandlines", "KEEPPOINTSANDLINES"),
+             ("iog", "iog", "ignoreoutsidegrid", "IGNOREOUTSIDEGRID"), ("rwo", "rwo", "reversewindingorder", "REVERSEWINDINGORDER"))
+    if how == "alias":
+        cmd = [texel, "-s", src, "-t", tgt, "-tms", case["tms"], "-z", json.dumps(case["ids"]), "-p", str(case["pagesize"])]
+        cmd += ["-" + b[1] for b in bools if case[b[0]]]
+    elif how == "long":
+        cmd = [texel, "--sourceGpkg", src, "--targetGpkg", tgt, "--tilematrixset", case["tms"], "--tilematrices", json.dumps(case["ids"]),
+               "--pagesize", str(case["pagesize"])]
+        cmd += ["--" + b[2] for b in bools if case[b[0]]]
+    else:
+        cmd = [texel]
+        env.update({"SOURCE_GPKG": src, "TARGET_GPKG": tgt, "TILEMATRIXSET": case["tms"], "TILEMATRICES": json.dumps(case["ids"]),
+                    "PAGESIZE": str(case["pagesize"])})
+        for b in bools:
+            if case[b[0]]:
+                env[b[3]] = "true"
     env["GORACE"] = "halt_on_error=0"
     try:
         r = subprocess.run(cmd, stdout=subprocess.PIPE, stderr=subprocess.PIPE, text=True, timeout=600, env=env)
@@ -53,6 +64,7 @@ def run_case(a):
     rec["dev"]["matrix"] = int(m.group(2)) if m else -1
     rec["stderr_tail"] = err[-300:]
     rec["races"] = err.count("WARNING: DATA RACE")
+    rec["how"] = how
     return rec
 
 
@@ -104,7 +116,8 @@ def run(tier):
     vlib.write_evidence(PROP, tier, "model_checking", {
         "states": dstates + tstates, "transitions": dtrans + tstates, "traces_validated_against_impl": len(recs),
         "samples": [{k: recs[0][k] for k in ("case", "exit", "file_names", "src")}],
-        "runs": len(recs), "runs_exit0": ok_runs, "runs_rejected_tms": sum(1 for r in recs if not r["case"]["valid_tms"]),
+        "runs": len(recs), "runs_exit0": ok_runs,
+        "configured_through": {h: sum(1 for r in recs if r.get("how") == h) for h in ("alias", "long", "env")}, "runs_rejected_tms": sum(1 for r in recs if not r["case"]["valid_tms"]),
         "runs_with_preexisting_targets": sum(1 for r in recs if r["case"]["pre"]), "path_vectors_replayed": len(pvecs),
         "path_vectors_total": len(pv.vecs),
         "rule": "random source GeoPackages (1-3 tables: polygon / multipolygon / point / linestring, 0-12 rows, NULLs, first table with three attribute "
